@@ -231,7 +231,9 @@ package syntax
 //@   requires CursorOK(p) && p.currentPos < len(p.pattern)
 //@   modifies p.currentPos
 //@   ensures CursorOK(p) && old(p.currentPos) <= p.currentPos && p.currentPos <= old(p.currentPos) + 3
+//@   ensures[progress] '0' <= p.pattern[old(p.currentPos)] && p.pattern[old(p.currentPos)] <= '7' ==> p.currentPos > old(p.currentPos)
 //@   loop 0:
+//@     invariant p.currentPos == old(p.currentPos) ==> c > 0 && i == 0 && ((0 <= d && d <= 7) == ('0' <= p.pattern[old(p.currentPos)] && p.pattern[old(p.currentPos)] <= '7'))
 //@     invariant CursorOK(p) && 0 <= c && c <= min(3, len(p.pattern) - old(p.currentPos)) && p.currentPos == old(p.currentPos) + (min(3, len(p.pattern) - old(p.currentPos)) - c) && p.pattern == old(p.pattern)
 //@     invariant 0 <= i && c <= len(p.pattern) - p.currentPos
 //@     decreases c
@@ -580,3 +582,29 @@ package syntax
 //@     invariant[marked] forall q int {OpStart(codes, q)} :: OpStart(codes, q) && 0 <= q && q < pos ==> SlotsMarked(codes, q, inUse)
 //@     invariant[here] forall k int :: 0 <= k && k <= rangeindex ==> (0 <= codes[pos+1+k] && codes[pos+1+k] < len(inUse) ==> inUse[codes[pos+1+k]])
 //@     decreases 2 - rangeindex
+
+// ---------------------------------------------------------------------------------------------
+// C19 / C10: Unescape and the single-escape scanner: every read stays inside the text, whatever the input is.
+// ---------------------------------------------------------------------------------------------
+//@ func (p *parser) scanCharEscape() (r rune, err error)
+//@   props C19 C10
+//@   requires CursorOK(p) && p.currentPos < len(p.pattern)
+//@   modifies p.currentPos
+//@   ensures CursorOK(p) && old(p.currentPos) < p.currentPos
+
+//@ func (p *parser) setPattern(pattern string)
+//@   props C10
+//@   requires p != nil
+//@   modifies p.patternRaw, p.pattern
+//@   ensures len(p.pattern) >= 0 && p.currentPos == old(p.currentPos)
+//@   loop 0:
+//@     invariant p != nil && len(p.pattern) >= 0 && fresh(p.pattern)
+//@     decreases len(pattern) - $pos
+
+//@ func Unescape(input string) (s string, err error)
+//@   props C19 C10
+//@   loop 0:
+//@     invariant CursorOK(p) && buf != nil && buf.$n >= 0
+//@   loop 1:
+//@     invariant CursorOK(p) && buf != nil && buf.$n >= 0 && p.currentPos > 0
+//@     decreases len(p.pattern) - p.currentPos
